@@ -2,11 +2,13 @@
    Round trips of the reply parsers of Savage 2, Mindustry and Frontlines: Fuel
    of War on the wire encodings of Spec/GamesSpec.v, for every state: each
    field of the reply comes back in the correspondingly named response field.
-   PARTIAL: for Just Cause 2: Multiplayer, The Ship and Battalion 1944 the
-   statement (the c07_full_statement definitions) is decided per generated state by the
-   correspondence run; Eco (HTTP) is outside. *)
+   Just Cause 2: Multiplayer: the data packet is decoded to exactly the state
+   (every variable, every player). The Ship and Battalion 1944: with the Valve
+   round trip (C02) the query returns every field of the three replies under its
+   own name, the bat_* rules applied and removed. Eco (HTTP) is outside. *)
 From GD Require Import Base.Prelude Model.Strings Model.StrOps Model.Buffer Model.Net Model.Valve Model.Gamespy Model.Games.
 From GD Require Import Spec.Rand Spec.ValveSpec Spec.ValveGen Spec.GamespySpec Spec.GamesSpec Proofs.GamesProofs.
+From GD Require Import Proofs.Msafe Proofs.ValveTransport Proofs.Gamespy2Roundtrip Proofs.Jc2mRoundtrip Proofs.ValveGamesRoundtrip.
 
 Theorem c07_savage2_roundtrip : forall s, wf_savage2 s = true ->
   run_r savage2_parse (savage2_reply s) = Ok (ss_resp s).
@@ -37,6 +39,54 @@ Example c07_wf_nonvacuous :
           (map (fun i => 7919 * N.of_nat i + 13) (seq 1 400)) = true.
 Proof. vm_compute. repeat split. Qed.
 
+(* ---- Just Cause 2: Multiplayer ----
+   wf_jc: texts valid UTF-8 without NUL, maxplayers / numplayers u32, pings and the announced count u16,
+   the server's own variables with non-empty, pairwise distinct names different from the six the client
+   reads, and the password text means the state's flag (true / false in any case, or a number: non-zero). *)
+Theorem c07_wf_jc_means : forall s,
+  wf_jc s = (no_nul (js_version s) && no_nul (js_description s) && no_nul (js_name s) && no_nul (snd (js_password s))
+             && (js_max s <? 4294967296) && optb (fun n => n <? 4294967296) (js_num s)
+             && extras_ok_for jc_keys (js_extras s)
+             && forallb (fun p => no_nul (jp_name p) && no_nul (jp_steam_id p) && (jp_ping p <? 65536)) (js_players s)
+             && (lenN (js_players s) <? 4294967296) && (js_count s <? 65536)
+             && match password_means (snd (js_password s)) with Some b => Bool.eqb b (fst (js_password s)) | None => false end).
+Proof. exact (fun s => eq_refl). Qed.
+Print Assumptions c07_wf_jc_means.
+Theorem c07_jc2m_roundtrip : forall s, wf_jc s = true ->
+  jc2m_build (flat_map (fun kv => cstr (fst kv) ++ cstr (snd kv)) (jc_vars s) ++ nul ++ be16' (js_count s)
+              ++ flat_map (fun p => cstr (jp_name p) ++ cstr (jp_steam_id p) ++ be16' (jp_ping p)) (js_players s))
+  = Ok (jc_expected s).
+Proof. exact jc2m_roundtrip. Qed.
+Print Assumptions c07_jc2m_roundtrip.
+
+(* ---- The Ship and Battalion 1944: the hypotheses are those of the Valve round trip (C02) ---- *)
+Theorem c07_theship_roundtrip : forall bz port t st o,
+  wf_state ship_engine st = true -> settings_ok t -> retries_ok t ->
+  reply_ok bz ship_engine 0 (vo_info o) (enc_info (vs_info st)) ->
+  reply_ok bz ship_engine (info_protocol_of (vs_info st)) (vo_players o) (enc_players (vs_players st)) ->
+  reply_ok bz ship_engine (info_protocol_of (vs_info st)) (vo_rules o) (enc_rules (vs_rules st)) ->
+  fst (theship_query bz port t (net_init (map Datagram (valve_script st o gathering_default)) [] [])) = ship_expected st.
+Proof. exact theship_roundtrip. Qed.
+Print Assumptions c07_theship_roundtrip.
+Theorem c07_battalion_roundtrip : forall bz port st o,
+  wf_state bat_engine st = true ->
+  reply_ok bz bat_engine 0 (vo_info o) (enc_info (vs_info st)) ->
+  reply_ok bz bat_engine (info_protocol_of (vs_info st)) (vo_players o) (enc_players (vs_players st)) ->
+  reply_ok bz bat_engine (info_protocol_of (vs_info st)) (vo_rules o) (enc_rules (vs_rules st)) ->
+  fst (battalion_query bz port (net_init (map Datagram (valve_script st o gathering_default)) [] [])) = bat_expected st.
+Proof. exact battalion_roundtrip. Qed.
+Print Assumptions c07_battalion_roundtrip.
+(* the mappings themselves, for every Valve response *)
+Theorem c07_battalion_mapping : forall r, (ob* r' := bat_overrides r in Ok (game_of_valve r')) = bat_spec r.
+Proof. exact bat_overrides_spec. Qed.
+Print Assumptions c07_battalion_mapping.
+
+Example c07_wf_jc_nonvacuous :
+  existsb (fun seed => let s := fst (gen_jc seed) in wf_jc s && negb (Nat.eqb (length (js_players s)) 0) && negb (Nat.eqb (length (js_extras s)) 0))
+          [1; 2; 3; 4; 5; 6; 7; 8; 9; 10; 11; 12; 13; 14; 15; 16] = true.
+Proof. vm_compute. reflexivity. Qed.
+
+(* the query-level statement for JC2-MP (handshake, skipped header bytes) is decided by the check, not proved *)
 (* full statements for the remaining games (decided by the check, not proved) *)
 Definition script_of (dgs : list bytes) : net := net_init (map Datagram dgs) [] [].
 Definition c07_full_statement_jc2m (s : jc_state) : Prop :=
